@@ -27,6 +27,12 @@ FLAG = True
 PAIR = (1, 2)
 NOTHING = None
 UNUSED = 10
+BATCH = 1
+RATE = 1
+UNITF = 1.0
+ZEROF = -0.0
+TAGS = {"alpha", "beta", "gamma", "delta"}
+FROZEN = frozenset(["x-ray", "yankee", "zulu"])
 ''',
     "cmt.py": '''
 import dds
@@ -81,6 +87,8 @@ import dds
 from . import helpers
 from .helpers import scaled as sc, sort_key as skey
 from . import consts
+from .consts import UNITF as UNITF_D, ZEROF as ZEROF_D
+from .consts import BATCH as BATCH_D, RATE as RATE_D, TAGS as TAGS_D, FROZEN as FROZEN_D
 from .consts import FLAG as FLAG_D, PAIR as PAIR_D, NOTHING as NOTHING_D, ITEMS as ITEMS_D, CONF as CONF_D, NAME as NAME_D
 import extmod
 import reexp
@@ -119,6 +127,22 @@ def leaf_href():
     CALLS.append("leaf_href")
     return list(map(helpers.neg, [1, 2]))
 
+def leaf_batch():
+    CALLS.append("leaf_batch")
+    return "batch=%r" % (BATCH_D,)
+
+def leaf_rate():
+    CALLS.append("leaf_rate")
+    return "rate=%r" % (RATE_D,)
+
+def leaf_unit():
+    CALLS.append("leaf_unit")
+    return "unit=%r %r" % (UNITF_D, ZEROF_D)
+
+def leaf_tags():
+    CALLS.append("leaf_tags")
+    return sorted(TAGS_D) + sorted(FROZEN_D)
+
 def leaf_reexp():
     CALLS.append("leaf_reexp")
     return reexp.shipped(1)
@@ -155,6 +179,10 @@ def root():
     out["direct"] = dds.keep("/c/direct", leaf_direct)
     out["kw"] = dds.keep("/c/kw", leaf_kw)
     out["href"] = dds.keep("/c/href", leaf_href)
+    out["batch"] = dds.keep("/c/batch", leaf_batch)
+    out["rate"] = dds.keep("/c/rate", leaf_rate)
+    out["tags"] = dds.keep("/c/tags", leaf_tags)
+    out["unit"] = dds.keep("/c/unit", leaf_unit)
     out["reexp"] = dds.keep("/c/reexp", leaf_reexp)
     out["ext"] = dds.keep("/c/ext", leaf_ext)
     out["args"] = dds.keep("/c/args", with_args, 1, c="y")
@@ -173,7 +201,7 @@ import os, importlib
 shipped = importlib.import_module(os.environ.get("CORPUS_PKG", "corp") + ".helpers").shipped
 '''
 
-ALL = ["/c/plain", "/c/scaled", "/c/items", "/c/flag", "/c/pair", "/c/direct", "/c/kw", "/c/href", "/c/reexp", "/c/ext", "/c/args", "/c/rt", "/c/ann_root", "/c/annotated", "/c/top_args"]
+ALL = ["/c/plain", "/c/scaled", "/c/items", "/c/flag", "/c/pair", "/c/direct", "/c/kw", "/c/href", "/c/batch", "/c/rate", "/c/tags", "/c/unit", "/c/reexp", "/c/ext", "/c/args", "/c/rt", "/c/ann_root", "/c/annotated", "/c/top_args"]
 # edits: (name, file, old, new, kept paths whose cone contains the edit [besides the root], value must change for these)
 EDITS = [
     ("callee body (transitive)", "corp/helpers.py", "return 10", "return 11", ["/c/scaled", "/c/rt"]),
@@ -191,6 +219,8 @@ EDITS = [
     ("function referenced only as a keyword-argument value", "corp/helpers.py", "return -x", "return x", ["/c/kw", "/c/rt"]),
     ("function referenced through a module attribute", "corp/helpers.py", "return 0 - x", "return 1 - x", ["/c/href", "/c/rt"]),
     ("accepted function reached through a non-accepted re-exporting module", "corp/helpers.py", "return x + 1000", "return x + 2000", ["/c/reexp", "/c/rt"]),
+    ("int variable becomes the equal float (another variable holds the same int)", "corp/consts.py", "RATE = 1", "RATE = 1.0", ["/c/rate", "/c/rt"]),
+    # (BATCH = 1 -> True is not an edit dds has to see: bool = int is a documented identification of the value hash)
     ("unused variable", "corp/consts.py", "UNUSED = 10", "UNUSED = 11", []),
     ("unrelated definition added", "corp/helpers.py", "def untouched():", "def brand_new():\n    return 0\n\ndef untouched():", []),
     ("non-accepted module body", "extmod.py", "return x * 100", "return x * 200", []),
@@ -270,6 +300,7 @@ if opts.get("store") == "memory":
 else:
     dds.set_store("local", internal_dir=os.path.join(opts.get("store_dir", base), "_int"), data_dir=os.path.join(opts.get("store_dir", base), "_data"))
 for i in range(opts.get("warmup", 0)):
+    dds.eval(pipe.leaf_unit)
     dds.eval(pipe.leaf_plain)
     dds.eval(pipe.root)
 pipe.CALLS.clear()
@@ -334,7 +365,7 @@ def edit(d, rel, old, new):
     shutil.rmtree(os.path.join(os.path.dirname(p), "__pycache__"), ignore_errors=True)
 
 
-FUN_OF = {"/c/reexp": "leaf_reexp", "/c/top_args": "with_values", "/c/kw": "leaf_kw", "/c/href": "leaf_href", "/c/direct": "leaf_direct", "/c/plain": "leaf_plain", "/c/scaled": "leaf_scaled", "/c/items": "leaf_items", "/c/flag": "leaf_flag", "/c/pair": "leaf_pair", "/c/ext": "leaf_ext", "/c/args": "with_args", "/c/rt": "with_runtime", "/c/annotated": "annotated", "/c/ann_root": "root"}
+FUN_OF = {"/c/unit": "leaf_unit", "/c/batch": "leaf_batch", "/c/rate": "leaf_rate", "/c/tags": "leaf_tags", "/c/reexp": "leaf_reexp", "/c/top_args": "with_values", "/c/kw": "leaf_kw", "/c/href": "leaf_href", "/c/direct": "leaf_direct", "/c/plain": "leaf_plain", "/c/scaled": "leaf_scaled", "/c/items": "leaf_items", "/c/flag": "leaf_flag", "/c/pair": "leaf_pair", "/c/ext": "leaf_ext", "/c/args": "with_args", "/c/rt": "with_runtime", "/c/annotated": "annotated", "/c/ann_root": "root"}
 
 
 def main():
@@ -368,10 +399,16 @@ def main():
                     # the same code copied to another accepted package, same store: nothing is recomputed
                     shutil.copytree(os.path.join(d, "corp"), os.path.join(d, "corp_copy"), ignore=shutil.ignore_patterns("__pycache__"))
                     cp = run(d, "dds", env_extra={"CORPUS_PKG": "corp_copy"})
-                    if cp.get("error") or cp["calls"]:
-                        note(None, "code copied unchanged to another accepted module re-executed %s %s" % (cp["calls"], cp.get("error") or ""))
-                    if cp["sigs"] != base["sigs"]:
-                        note(None, "code copied unchanged to another accepted module gets other signatures for %s" % [p for p in ALL if cp["sigs"].get(p) != base["sigs"].get(p)])
+                    # a module variable of an unsupported type (set / frozenset) is outside the supported subset: it is
+                    # identified by where it lives, so its reader (and what depends on the reader's position: the
+                    # root, the later sibling with a run-time argument) legitimately differs in the copy
+                    by_location = {"/c/tags", "/c/rt", "/c/ann_root"}
+                    moved = [c_ for c_ in cp["calls"] if c_ not in ("root", "leaf_tags", "with_runtime")]
+                    if cp.get("error") or moved:
+                        note(None, "code copied unchanged to another accepted module re-executed %s %s" % (moved, cp.get("error") or ""))
+                    diff = [p for p in ALL if cp["sigs"].get(p) != base["sigs"].get(p) and p not in by_location]
+                    if diff:
+                        note(None, "code copied unchanged to another accepted module gets other signatures for %s" % diff)
                 original_text = open(os.path.join(d, rel)).read()
                 edit(d, rel, old, new)
                 after = run(d, "dds")
